@@ -3,9 +3,11 @@
 @fn LinearizationContext::new -> r
     ensures lc_fin(r), forall|env: Env| #[trigger] lc_eval(r, env) == 0real,
 @fn LinearizationContext::from_rhs -> r
-    ensures finite(rhs) ==> lc_fin(r) && forall|env: Env| #[trigger] lc_eval(r, env) == rv(rhs),
+    requires finite(rhs),
+    ensures lc_fin(r), forall|env: Env| #[trigger] lc_eval(r, env) == rv(rhs),
 @fn LinearizationContext::from_var -> r
-    ensures finite(multiplier) ==> lc_fin(r) && forall|env: Env| #[trigger] lc_eval(r, env) == rmul_s(rv(multiplier), env[name@]),
+    requires finite(multiplier),
+    ensures lc_fin(r), forall|env: Env| #[trigger] lc_eval(r, env) == rmul_s(rv(multiplier), env[name@]),
 @fn LinearizationContext::add_var
     requires lc_fin(*old(self)), finite(multiplier),
     ensures lc_fin(*final(self)), forall|env: Env| #[trigger] lc_eval(*final(self), env) == lc_eval(*old(self), env) + rmul_s(rv(multiplier), env[name@]),
@@ -28,3 +30,102 @@
     ensures r == self.current_rhs,
 @fn LinearizationContext::vars -> r
     ensures *r == self.current_vars,
+
+@fn LinearizationContext::add_var @entry
+    let ghost k0 = self.current_vars.keys();
+    let ghost m0 = self.current_vars.map();
+    let ghost nm = name@;
+@fn LinearizationContext::add_var @end
+    proof {
+        let k1 = self.current_vars.keys(); let m1 = self.current_vars.map();
+        assert forall|k: Seq<char>| self.current_vars.has(k) implies fv(#[trigger] m1[k]) is Fin by { if k != nm { assert(m0.dom().contains(k)); assert(fv(m0[k]) is Fin); } }
+        assert forall|env: Env| #[trigger] lc_eval(*self, env) == lc_eval(*old(self), env) + rmul_s(rv(multiplier), env[nm]) by {
+            if m0.dom().contains(nm) {
+                assert(k0.contains(nm));
+                let p = choose|p: int| 0 <= p < k0.len() && k0[p] == nm;
+                lemma_msum_update(k0, m0, p, m1[nm], env, k0.len() as int);
+                lemma_distrib(rv(m0[nm]), rv(multiplier), env[nm]);
+            } else {
+                assert(!k0.contains(nm));
+                lemma_msum_push(k0, m0, nm, multiplier, env);
+            }
+        }
+    }
+@fn LinearizationContext::merge_add @entry
+    let ghost s0 = *self;
+@fn LinearizationContext::merge_add @loop 1
+    invariant
+        vx_n1 == other.current_vars.keys().len(), lc_fin(other), lc_fin(*self),
+        forall|env: Env| #[trigger] lc_eval(*self, env) == lc_eval(s0, env) + msum(other.current_vars.keys(), other.current_vars.map(), env, vx_i1 as int),
+@fn LinearizationContext::merge_add @loop 1 @start
+    proof { assert(other.current_vars.has(other.current_vars.keys()[vx_i1 as int])) by { assert(other.current_vars.keys().contains(other.current_vars.keys()[vx_i1 as int])); } }
+@fn LinearizationContext::merge_sub @entry
+    let ghost s0 = *self;
+@fn LinearizationContext::merge_sub @loop 1
+    invariant
+        vx_n1 == other.current_vars.keys().len(), lc_fin(other), lc_fin(*self),
+        forall|env: Env| #[trigger] lc_eval(*self, env) == lc_eval(s0, env) - msum(other.current_vars.keys(), other.current_vars.map(), env, vx_i1 as int),
+@fn LinearizationContext::merge_sub @loop 1 @start
+    proof { assert(other.current_vars.has(other.current_vars.keys()[vx_i1 as int])) by { assert(other.current_vars.keys().contains(other.current_vars.keys()[vx_i1 as int])); } }
+@fn LinearizationContext::merge_sub @loop 1 @end
+    proof { assert forall|env: Env| #[trigger] lc_eval(*self, env) == lc_eval(s0, env) - msum(other.current_vars.keys(), other.current_vars.map(), env, vx_i1 + 1) by {
+        lemma_distrib(rv(multiplier), 0real, env[name@]); } }
+@fn LinearizationContext::mul_by @entry
+    let ghost k0 = self.current_vars.keys();
+    let ghost m0 = self.current_vars.map();
+    let ghost c = rv(multiplier);
+@fn LinearizationContext::mul_by @loop 1
+    invariant
+        vx_n1 == k0.len(), self.current_vars.wf(), self.current_vars.keys() == k0, self.current_rhs == old(self).current_rhs, lc_fin(*old(self)),
+        k0 == old(self).current_vars.keys(), m0 == old(self).current_vars.map(), finite(multiplier), c == rv(multiplier),
+        forall|j: int| 0 <= j < vx_i1 ==> fv(#[trigger] self.current_vars.map()[k0[j]]) is Fin && rv(self.current_vars.map()[k0[j]]) == rmul_s(c, rv(m0[k0[j]])),
+        forall|j: int| vx_i1 <= j < k0.len() ==> #[trigger] self.current_vars.map()[k0[j]] == m0[k0[j]],
+@fn LinearizationContext::mul_by @loop 1 @start
+    let ghost mp = self.current_vars.map();
+    proof { assert(k0.contains(k0[vx_i1 as int])); assert(m0.dom().contains(k0[vx_i1 as int])); assert(fv(m0[k0[vx_i1 as int]]) is Fin); }
+@fn LinearizationContext::mul_by @loop 1 @end
+    proof {
+        lemma_mul_comm_lc(rv(m0[k0[vx_i1 as int]]), c);
+        assert forall|j: int| 0 <= j < k0.len() && j != vx_i1 implies self.current_vars.map()[k0[j]] == mp[k0[j]] by { assert(k0[j] != k0[vx_i1 as int]); }
+    }
+@fn LinearizationContext::mul_by @end
+    proof {
+        let m1 = self.current_vars.map();
+        assert forall|k: Seq<char>| self.current_vars.has(k) implies fv(#[trigger] m1[k]) is Fin by {
+            assert(k0.contains(k)); let p = choose|p: int| 0 <= p < k0.len() && k0[p] == k; assert(fv(m1[k0[p]]) is Fin);
+        }
+        assert forall|env: Env| #[trigger] lc_eval(*self, env) == rmul_s(c, lc_eval(*old(self), env)) by {
+            lemma_msum_scale(k0, m0, m1, c, env, k0.len() as int);
+            let s = msum(k0, m0, env, k0.len() as int); let r0 = rv(old(self).current_rhs);
+            assert(c * (r0 + s) == r0 * c + c * s) by (nonlinear_arith);
+        }
+    }
+@fn LinearizationContext::div_by @entry
+    let ghost k0 = self.current_vars.keys();
+    let ghost m0 = self.current_vars.map();
+    let ghost d = rv(divisor);
+@fn LinearizationContext::div_by @loop 1
+    invariant
+        vx_n1 == k0.len(), self.current_vars.wf(), self.current_vars.keys() == k0, self.current_rhs == old(self).current_rhs, lc_fin(*old(self)),
+        k0 == old(self).current_vars.keys(), m0 == old(self).current_vars.map(), finite(divisor), d == rv(divisor), d != 0real,
+        forall|j: int| 0 <= j < vx_i1 ==> fv(#[trigger] self.current_vars.map()[k0[j]]) is Fin && rv(self.current_vars.map()[k0[j]]) == rdiv_s(rv(m0[k0[j]]), d),
+        forall|j: int| vx_i1 <= j < k0.len() ==> #[trigger] self.current_vars.map()[k0[j]] == m0[k0[j]],
+@fn LinearizationContext::div_by @loop 1 @start
+    let ghost mp = self.current_vars.map();
+    proof { assert(k0.contains(k0[vx_i1 as int])); assert(m0.dom().contains(k0[vx_i1 as int])); assert(fv(m0[k0[vx_i1 as int]]) is Fin); }
+@fn LinearizationContext::div_by @loop 1 @end
+    proof {
+        assert forall|j: int| 0 <= j < k0.len() && j != vx_i1 implies self.current_vars.map()[k0[j]] == mp[k0[j]] by { assert(k0[j] != k0[vx_i1 as int]); }
+    }
+@fn LinearizationContext::div_by @end
+    proof {
+        let m1 = self.current_vars.map();
+        assert forall|k: Seq<char>| self.current_vars.has(k) implies fv(#[trigger] m1[k]) is Fin by {
+            assert(k0.contains(k)); let p = choose|p: int| 0 <= p < k0.len() && k0[p] == k; assert(fv(m1[k0[p]]) is Fin);
+        }
+        assert forall|env: Env| #[trigger] lc_eval(*self, env) == rdiv_s(lc_eval(*old(self), env), d) by {
+            lemma_msum_div(k0, m0, m1, d, env, k0.len() as int);
+            let s = msum(k0, m0, env, k0.len() as int); let r0 = rv(old(self).current_rhs);
+            assert((r0 + s) / d == r0 / d + s / d) by (nonlinear_arith) requires d != 0real;
+        }
+    }
